@@ -192,7 +192,7 @@ theorem throw_bind_ne_ok {α β} (e : Err) (f : α → R β) (b : β) : ((throw 
 
 theorem frame_fromVolume (E : Env) (path : Str) (u svc : SUnit) (n : Str) (h : fromVolume E path u = .ok (svc, n)) :
     SameOutside [s "Unit", s "Service"] (preService path u (s "Volume") (s "X-Volume")) svc := by
-  unfold fromVolume at h
+  unfold fromVolume volumeOpts at h
   simp only [bind_ok] at h
   obtain ⟨_, _, _, _, x, hx, svc1, hexec, hfin⟩ := h
   simp only [pure, Except.pure, Except.ok.injEq, Prod.mk.injEq] at hfin
